@@ -268,6 +268,22 @@ func (s Spec) Eval(v ssa.Value) (constant.Value, bool) {
 		if c, ok := s[x]; ok {
 			return c, true
 		}
+	case *ssa.Extract:
+		// a result of an in-package helper that is the same constant on every return reachable under the helper's own
+		// specialisation by the (constant or specialised) arguments of this call: 'newLen, copyOver := m.nextTable(t, hint)'
+		if call, ok := x.Tuple.(*ssa.Call); ok {
+			if c, ok := s.evalCallResult(call, x.Index); ok {
+				return c, true
+			}
+		}
+	case *ssa.Call:
+		if x.Type() != nil {
+			if _, isTuple := x.Type().(*types.Tuple); !isTuple {
+				if c, ok := s.evalCallResult(x, 0); ok {
+					return c, true
+				}
+			}
+		}
 	case *ssa.UnOp:
 		if x.Op == token.NOT {
 			if c, ok := s.Eval(x.X); ok && c.Kind() == constant.Bool {
@@ -275,6 +291,14 @@ func (s Spec) Eval(v ssa.Value) (constant.Value, bool) {
 			}
 		}
 	case *ssa.BinOp:
+		// p == nil / p != nil for a pointer that is provably a fresh allocation under this specialisation
+		if x.Op == token.EQL || x.Op == token.NEQ {
+			for _, pr := range [][2]ssa.Value{{x.X, x.Y}, {x.Y, x.X}} {
+				if IsNilConst(pr[1]) && s.nonNil(pr[0], 0) {
+					return constant.MakeBool(x.Op == token.NEQ), true
+				}
+			}
+		}
 		a, ok1 := s.Eval(x.X)
 		b, ok2 := s.Eval(x.Y)
 		if ok1 && ok2 {
@@ -397,3 +421,108 @@ func StructOf(t types.Type) *types.Struct { return structOf(t) }
 
 // NamedOf returns the name of the named type t denotes (through pointers), or "".
 func NamedOf(t types.Type) string { return namedOf(t) }
+
+// SpecFor derives the callee's specialisation at a call site: constant arguments, and arguments that are parameters
+// bound by the caller's specialisation.
+func (s Spec) SpecFor(call ssa.CallInstruction, cal *ssa.Function) Spec {
+	sp := Spec{}
+	args := call.Common().Args
+	for i, a := range args {
+		if i >= len(cal.Params) {
+			break
+		}
+		if c, ok := s.Eval(a); ok {
+			if _, isConst := a.(*ssa.Const); isConst || c.Kind() == constant.Bool || c.Kind() == constant.Int {
+				sp[cal.Params[i]] = c
+			}
+		}
+	}
+	return sp
+}
+
+var evalDepth int
+
+func (s Spec) evalCallResult(call *ssa.Call, idx int) (constant.Value, bool) {
+	cal := Callee(call)
+	if cal == nil || cal.Blocks == nil || evalDepth > 2 {
+		return nil, false
+	}
+	evalDepth++
+	defer func() { evalDepth-- }()
+	sp := s.SpecFor(call, cal)
+	if len(sp) == 0 {
+		return nil, false
+	}
+	reach := sp.Reachable(cal)
+	var val constant.Value
+	n := 0
+	same := true
+	for _, b := range cal.Blocks {
+		if !reach[b] {
+			continue
+		}
+		ret, ok := b.Instrs[len(b.Instrs)-1].(*ssa.Return)
+		if !ok || idx >= len(ret.Results) {
+			continue
+		}
+		n++
+		c, ok := sp.Eval(ret.Results[idx])
+		if !ok || (c.Kind() != constant.Bool && c.Kind() != constant.Int) {
+			same = false
+			continue
+		}
+		if val == nil {
+			val = c
+		} else if !constant.Compare(val, token.EQL, c) {
+			same = false
+		}
+	}
+	if n == 0 || !same || val == nil {
+		return nil, false
+	}
+	return val, true
+}
+
+// nonNil: the pointer is an allocation on every return of the helper(s) it comes from that is reachable under the
+// specialisation the call's arguments give them.
+func (s Spec) nonNil(v ssa.Value, depth int) bool {
+	if depth > 3 {
+		return false
+	}
+	v = StripConv(v)
+	switch x := v.(type) {
+	case *ssa.Alloc, *ssa.MakeSlice, *ssa.MakeMap, *ssa.MakeChan, *ssa.MakeClosure:
+		return true
+	case *ssa.Extract:
+		if call, ok := x.Tuple.(*ssa.Call); ok {
+			return s.callNonNil(call, x.Index, depth)
+		}
+	case *ssa.Call:
+		return s.callNonNil(x, 0, depth)
+	}
+	return false
+}
+
+func (s Spec) callNonNil(call *ssa.Call, idx, depth int) bool {
+	cal := Callee(call)
+	if cal == nil || cal.Blocks == nil {
+		return false
+	}
+	sp := s.SpecFor(call, cal)
+	reach := sp.Reachable(cal)
+	n := 0
+	for _, b := range cal.Blocks {
+		if !reach[b] {
+			continue
+		}
+		ret, ok := b.Instrs[len(b.Instrs)-1].(*ssa.Return)
+		if !ok || idx >= len(ret.Results) {
+			continue
+		}
+		n++
+		if !sp.nonNil(ret.Results[idx], depth+1) {
+			return false
+		}
+	}
+	return n > 0
+}
